@@ -101,6 +101,13 @@ Check ==
     PredsAgree     |-> Done => /\ PredsWellFormed
                                /\ \A i \in 1..Len(T.preds) : LET p == ById(T.preds[i].ids, T.preds[i].s) IN
                                      \A r \in Rows : Within(p[r], SamePred[r]),
+    \* a third model whose estimator is a hyper-parameter search (GridSearchCV): every fit the search makes BEFORE the training
+    \* loop must also be handed rows and start labels of the same PSM (either orientation of the direction feature)
+    SearchFitsAligned |-> LET ok(L) == \A i \in 1..Len(T.search_fits) : LET e == T.search_fits[i] IN
+                                          \A j \in 1..Len(e.ids) : /\ e.ids[j] \in Rows /\ L[e.ids[j]] # 0
+                                                                    /\ (e.y2[j] = 2 <=> L[e.ids[j]] = 1)
+                                                                    /\ (e.y2[j] = 0 <=> L[e.ids[j]] = -1)
+                          IN ok(LD) \/ ok(LA),
     \* a second model with the default (stateful) StandardScaler: same PSMs, permuted feature columns, reloaded model
     ScaledPredsAgree |-> \A i \in 1..Len(T.preds_scaled) : LET a == T.preds_scaled[1]  b == T.preds_scaled[i] IN
                             /\ a.ok /\ b.ok /\ Len(a.s) = Len(b.s)
